@@ -811,3 +811,23 @@ mod test {
         }
     }
 }
+
+/// Verification hooks: thin wrappers exposing the crate-private type operations.
+#[cfg(feature = "verif")]
+#[doc(hidden)]
+pub mod verif_hooks {
+    use super::Type;
+
+    pub fn from_type(ty: &async_graphql_parser::types::Type) -> Type {
+        Type::from_type(ty)
+    }
+    pub fn equal_ignoring_nullability(a: &Type, b: &Type) -> bool {
+        a.equal_ignoring_nullability(b)
+    }
+    pub fn is_orderable(a: &Type) -> bool {
+        a.is_orderable()
+    }
+    pub fn is_scalar_only_subtype(parent: &Type, maybe_subtype: &Type) -> bool {
+        parent.is_scalar_only_subtype(maybe_subtype)
+    }
+}
